@@ -366,7 +366,7 @@ def in_place_models(ctx, tmp):
 
 
 def run(ctx):
-    ctx.check_proofs(["MPilot.Props.C17"])
+    ctx.check_proofs(["MPilot.Props.C17", "MPilot.Props.C17Table"])
     model = common.Model()
     rng = ctx.rng
     tmp = common.tmpdir("mpv_c17_")
@@ -542,13 +542,10 @@ def write_checks(ctx, model, tmp):
                 ctx.fail("write + read back changed a value: %r came back as %r" % bad, desc)
                 break
         # model of the writer: cell texts as Python renders them, table structure from the model
-        cells = list(names)
+        # (the model assembles the table itself - Model/Csv.csvWriteTable, Props/C17Table.lean: header in the listed order, record i = cell i of every result)
         promoted = [c.astype(float) if all_float else c for c in cols]
-        for r in range(n):
-            for c in promoted:
-                v = c[r]
-                cells.append(repr(float(v)) if c.dtype.kind == "f" else str(int(v)))
-        wlines.append("csvwrite %d %d %s" % (n + 1, k, " ".join(enc_str(x) for x in cells)))
+        cells = [repr(float(c[r])) if c.dtype.kind == "f" else str(int(c[r])) for c in promoted for r in range(n)]
+        wlines.append("csvtable %d %d %s %s" % (k, n, " ".join(enc_str(x) for x in names), " ".join(enc_str(x) for x in cells)))
         wmetas.append((text, desc))
     for (text, desc), ans in zip(wmetas, model.ask(wlines)):
         if common.dec_str(ans) != text:
